@@ -1241,6 +1241,10 @@ func (s *State) evalArrayInfixExpression(operator token.Type, left, right object
 		if !ok {
 			return s.Errorf("result of * on arrays too large: %d * %d", len(leftVal), rightVal)
 		}
+		if n == 0 {
+			// nothing to repeat: don't loop rightVal times (up to 2^63, without ever checking the context).
+			return object.NewArray(nil)
+		}
 		result := object.MakeObjectSlice(n)
 		for range rightVal {
 			result = append(result, leftVal...)
